@@ -63,6 +63,9 @@ impl UrlPath {
             }
 
             if _char == ']' && previous_char.is_some() && previous_char.unwrap() == ']' {
+                if !is_opened_token {
+                    return Err("at least one extra ] char".to_string());
+                }
                 is_opened_token = false;
                 let without_square_brackets = _buffer.len() - 2;
                 let key : String = _buffer[0..without_square_brackets].into_iter().collect();
